@@ -70,3 +70,7 @@ Check C06_spelling_same_canonical_directory :
     WalkModel.canon t raw1 = Some p -> WalkModel.canon t raw2 = Some p -> WalkProofs6.dir_at t p ->
     WalkModel.absolute t raw1 = WalkModel.absolute t raw2.
 Check (eq_refl : WalkProofs6.dir_at = fun t p => exists nd, WalkModel.lookup t p = Some nd /\ WalkModel.n_kind nd = WalkModel.KDir).
+Check C06_spelling_dotdot_physical :
+  forall (t : WalkModel.tree) raw q,
+    WalkModel.canon t raw = Some q -> WalkProofs6.dir_at t q ->
+    WalkModel.canon t (raw ++ [WalkModel.dotdot]) = Some (removelast q).
